@@ -18,6 +18,9 @@ type CaseC09 struct {
 	VFine, VCoarse int64
 	Box            ref.Box
 	DH, DV         int64 // zoom-in differences for the box relations
+	// Tiling: descendants of Box at mixed zooms that tile it exactly (a complete set of descendants in which no
+	// member need be the finest on both axes)
+	Tiling []ref.Box `json:",omitempty"`
 }
 
 func genC09(t *rapid.T) *CaseC09 {
@@ -38,6 +41,12 @@ func genC09(t *rapid.T) *CaseC09 {
 	c.Box = genBox(t, "b")
 	c.DH = rapid.Int64Range(0, min64(2, 35-c.Box.H)).Draw(t, "dh")
 	c.DV = rapid.Int64Range(0, min64(3, 35-c.Box.V)).Draw(t, "dv")
+	if rapid.Bool().Draw(t, "tiling") {
+		c.Tiling = cover(t, c.Box, 2, 2, false)
+		if len(c.Tiling) > 1 {
+			c.Tiling = rapid.Permutation(c.Tiling).Draw(t, "tperm")
+		}
+	}
 	return c
 }
 
@@ -55,6 +64,9 @@ func classifyC09(c *CaseC09) (bool, []string) {
 	if c.HFine-c.HCoarse >= 2 && c.VFine-c.VCoarse >= 2 {
 		nt = true
 		cl = append(cl, "zoom-difference>=2-on-both-axes")
+	}
+	if len(c.Tiling) > 1 {
+		cl = append(cl, "mixed-zoom-tiling")
 	}
 	if c.DH > 0 && c.DV > 0 {
 		cl = append(cl, "descendants-on-both-axes")
@@ -140,6 +152,12 @@ func checkC09(c *CaseC09, fl *Fails) {
 	mg, err := integrate.MergeExtendedSpatialIds(in, c.Box.H, c.Box.V)
 	if err != nil || len(mg) != 1 || mg[0] != id {
 		fl.Add("merge-descendants", "merging the %d descendants of %s at (%d,%d) gives %v (err %v)", len(in), id, c.Box.H, c.Box.V, trunc(mg, 6), err)
+	}
+	if len(c.Tiling) > 1 {
+		mt, err := integrate.MergeExtendedSpatialIds(boxesExt(c.Tiling), c.Box.H, c.Box.V)
+		if err != nil || len(mt) != 1 || mt[0] != id {
+			fl.Add("merge-descendants-mixed", "merging the exact tiling %v of %s at (%d,%d) gives %v (err %v)", trunc(boxesExt(c.Tiling), 10), id, c.Box.H, c.Box.V, trunc(mt, 6), err)
+		}
 	}
 	for i, d := range in {
 		if i%17 != 0 {
